@@ -282,6 +282,53 @@ func checkC09(r *kit.Run) {
 		r.Fatal("canary: %d of %d flipped validity verdicts noticed", caught, canary)
 	}
 
+	// ---- 2b. identifiers: spec grammar vs ast.IsValidIdent, scanner, parser ----
+	{
+		li := kit.Pick(r, 4, 5)
+		resI, err := kit.RunTLC(kit.TLCOpts{Module: "CueLiteral", CfgText: fmt.Sprintf("INIT Init\nNEXT Next\nCONSTANTS Mode = \"ident\" L = %d\n", li), Dump: true, Timeout: 20 * time.Minute})
+		if err != nil || resI.TimedOut || !resI.OK() {
+			out := resI.Tail(30)
+			resI.Cleanup()
+			r.Fatal("CueLiteral(ident) model: %v %s\n%s", err, resI.Violation, out)
+		}
+		r.AddTLC("CueLiteral ident", resI)
+		// instances of the character classes (chosen per position, so that every class member occurs)
+		classes := map[string][]string{"L": {"a", "é", "日", "Z"}, "D": {"1", "٣", "１", "0"}, "us": {"_"}, "dollar": {"$"}, "hash": {"#"}, "dash": {"-"}, "dot": {"."}}
+		order := []string{"L", "D", "us", "dollar", "hash", "dash", "dot"}
+		var idents, validIdents int64
+		_, err = kit.ForEachState(resI.DumpPath, nil, 16, func(w int, st tlaval.State) {
+			seq := tlaval.IntSeq(st["s"])
+			want := tlaval.AsBool(st["valid"])
+			for variant := 0; variant < 4; variant++ {
+				var sb strings.Builder
+				for pos, i := range seq {
+					m := classes[order[i-1]]
+					sb.WriteString(m[(variant+pos)%len(m)])
+				}
+				t := sb.String()
+				if isKeywordOrSpecial(t) {
+					continue
+				}
+				atomic.AddInt64(&idents, 1)
+				if want {
+					atomic.AddInt64(&validIdents, 1)
+				}
+				iv := ast.IsValidIdent(t)
+				sc := scanSingleIdent(t)
+				pa := parseSingleIdent(t)
+				if iv != want || sc != want || pa != want {
+					r.Violation("ident "+t, fmt.Sprintf("identifier %q: the grammar says valid=%v, ast.IsValidIdent=%v, the scanner=%v, the parser=%v", t, want, iv, sc, pa), map[string]any{"text": t})
+				}
+			}
+		})
+		resI.Cleanup()
+		if err != nil {
+			r.Fatal("CueLiteral ident dump: %v", err)
+		}
+		r.Set("identifier_candidates", int(idents))
+		r.Set("identifier_candidates_valid", int(validIdents))
+	}
+
 	// ---- 3. token soups ----
 	lt := kit.Pick(r, 3, 4)
 	res3, err := kit.RunTLC(kit.TLCOpts{Module: "CueTokens", CfgText: fmt.Sprintf("INIT Init\nNEXT Next\nCONSTANT L = %d\n", lt), Dump: true, Timeout: 40 * time.Minute, Heap: "24g", MaxSetSize: 4000000})
@@ -343,4 +390,55 @@ func checkC09(r *kit.Run) {
 	r.Set("canaries_rejected", int(caught)+2)
 	r.Set("exhaustive", true)
 	r.Set("rule", "every (string, quoting form) state of CueLiteral.tla: Unquote(Quote(s)) == s, the quoted text scans and parses as one literal, a sample evaluates to s; every candidate literal text: the grammar recogniser of the spec, the scanner, the parser and literal.Unquote must agree; every token soup of CueTokens.tla in two spacings: no panic, positions inside the input, children within parents, siblings ordered; non-trivial = strings of >= 2 symbols plus valid literal candidates")
+}
+
+// isKeywordOrSpecial: texts the identifier grammar does not decide (keywords, the bottom literal, top).
+func isKeywordOrSpecial(t string) bool {
+	switch t {
+	case "_", "_|_", "for", "in", "if", "let", "null", "true", "false", "import", "package":
+		return true
+	}
+	return false
+}
+
+// scanSingleIdent reports whether src scans as exactly one IDENT token without errors.
+func scanSingleIdent(src string) bool {
+	var s scanner.Scanner
+	errs := 0
+	f := token.NewFile("id", -1, len(src))
+	s.Init(f, []byte(src), func(token.Pos, string, []interface{}) { errs++ }, 0)
+	_, tok, lit := s.Scan()
+	if tok != token.IDENT || lit != src {
+		return false
+	}
+	for {
+		_, tok, _ = s.Scan()
+		if tok == token.EOF {
+			break
+		}
+		if tok == token.COMMA {
+			continue
+		}
+		return false
+	}
+	return errs == 0
+}
+
+// parseSingleIdent reports whether `x: <src>` parses with <src> as one identifier.
+func parseSingleIdent(src string) (ok bool) {
+	defer func() {
+		if recover() != nil {
+			ok = false
+		}
+	}()
+	f, err := parser.ParseFile("id.cue", "x: "+src+"\n")
+	if err != nil || len(f.Decls) != 1 {
+		return false
+	}
+	fld, isField := f.Decls[0].(*ast.Field)
+	if !isField {
+		return false
+	}
+	id, isIdent := fld.Value.(*ast.Ident)
+	return isIdent && id.Name == src
 }
